@@ -381,6 +381,37 @@ def big_workload(seed, shapes):
     return out
 
 
+# ------------------------------------------------------------------ concurrent FIRST use in a fresh interpreter
+def o_cold(case):
+    """several threads parse and checksum at once in a process that has not parsed anything yet (lazily built tables
+    and indexes are built exactly then); every result must equal the sequential one"""
+    from pv import child
+    from pv.framing import crc_table
+
+    payloads = [bytes.fromhex(p) for p in case["payloads"]]
+    frames = [framing.build_frame(p) for p in payloads]
+    want = [do_parse("msg", p, 1 + (k & 1)) for k, p in enumerate(payloads)]
+    for rep in range(case["children"]):
+        out = child.cold_start_threads(payloads, frames, threads=case["threads"])
+        for t, r in out.items():
+            for kk, kind, val in r["parse"]:
+                got = ("ok", [(a, v) for a, v in val]) if kind == "ok" else ("exc", val)
+                if got != (want[kk][0], [(a, v) for a, v in want[kk][1]] if want[kk][0] == "ok" else want[kk][1]):
+                    raise Fail("cold-start-result-differs", f"fresh interpreter, thread {t}, message {kk} ({framing.ref_identity(payloads[kk])}): sequential {want[kk][0]}, concurrent first use {kind}{'' if kind == 'ok' else ':' + str(val)}")
+            for kk, a, b in r["crc"]:
+                if a == "exc" or a != crc_table(frames[kk][:-3]) or b != 0:
+                    raise Fail("cold-start-crc-differs", f"fresh interpreter, thread {t}: calc_crc24q gave {a!r}/{b!r}, reference {crc_table(frames[kk][:-3]):#x}/0")
+    return Res(nontrivial=True, classes=["cold-start"], evals=case["children"] * case["threads"] * len(payloads))
+
+
+@st.composite
+def s_cold(draw, tier):
+    ids = draw(st.lists(st.sampled_from(gen.all_idents_safe()), min_size=3, max_size=6))
+    # late entries of every table, so that a half-built lookup structure is missing them
+    ids += ["1305", "1137", "4076_201", "4076_127"]
+    return {"payloads": [draw(gen.messages(i, "small"))["payload"] for i in ids], "threads": 6, "children": 3 if tier == "quick" else 8}
+
+
 def _short(c):
     c = dict(c)
     for k in ("items", "jobs"):
@@ -396,5 +427,6 @@ def _short(c):
 SUBS = [
     Sub("parse_histories", o_history, strategy=s_history, examples=(60, 1200), rule="re-parse after a different identity and a failing parse", need={"re-parse": 1, "failing-parse": 1, "live": 1}, sample=_short),
     Sub("deterministic_schedules", o_sched, strategy=s_sched, examples=(10, 200), rule=">= 10 context switches inside the decoder", need={"switches-inside-decoder>=10": 1}, sample=_short),
+    Sub("cold_start_concurrent_first_use", o_cold, strategy=s_cold, examples=(1, 10), rule="every case: fresh interpreters with 6 threads starting together", sample=_short),
     Sub("free_running_threads", o_stress, strategy=s_stress, examples=(3, 20), rule="every case (8 threads)", sample=_short),
 ]
